@@ -1,6 +1,1449 @@
-//! Component `autoalloc` (see /verif/FRAMEWORK.md).
+//! Component `autoalloc` (see /verif/FRAMEWORK.md, /verif/notes/autoalloc.md).
+//!
+//! Drives the real `handle_message` / `perform_submits` / `do_periodic_update` of
+//! `crates/hyperqueue/src/server/autoalloc/process.rs` through `hyperqueue::verif::autoalloc::VerifAutoAlloc`
+//! with a scripted batch system, a scripted worker-query answer and a mocked monotonic clock.
+//!
+//! ops (choices the real code resolved are printed into the op line *after* the op ran):
+//!   addq bl= wpa= mwc= delays= msf= maf= qid=          AutoAllocMessage::AddQueue (limiter constants as the impl has them)
+//!   wconn w= a=                                        AutoAllocMessage::WorkerConnected
+//!   wlost w= a= r= life=                               AutoAllocMessage::WorkerLost
+//!   job                                                AutoAllocMessage::JobSubmitted
+//!   rmq q= force=                                      AutoAllocMessage::RemoveQueue
+//!   pause q= | resume q=                               AutoAllocMessage::{PauseQueue,ResumeQueue}
+//!   tick now= order= resp= res= dem= pert=             scheduling arm: `if has_active_queues { perform_submits }`
+//!   refresh rep=                                       periodic arm:   `if has_active_queues { do_periodic_update }`
+//! outs: sched resp tickres ran query submit rm ev | snapshot: queue lim alloc a2q | !panic
+use std::cell::RefCell;
+use std::collections::{BTreeMap, BTreeSet, VecDeque};
+use std::io::BufRead;
+use std::rc::Rc;
+use std::time::Duration;
 
-pub fn main(mode: &str, _args: &[String]) {
-    eprintln!("component autoalloc: mode {mode} not implemented yet");
-    std::process::exit(2);
+use hyperqueue::verif::autoalloc as hk;
+use hyperqueue::verif::autoalloc::{
+    VerifAllocState, VerifAutoAlloc, VerifEnv, VerifEvent, VerifQuery, VerifQueryResponse, VerifQueue,
+    VerifQueueParams, VerifRemoveResult, VerifSnapshot, VerifStatus, VerifSubmit,
+};
+use tako::gateway::LostWorkerReason;
+
+use crate::util::{self, GenArgs, Rng, Trace};
+
+// ------------------------------------------------------------------------------------------------
+// Environment (batch system + scheduler answer + clock)
+// ------------------------------------------------------------------------------------------------
+
+/// Demand of one queue = what the scheduler would answer for it: (sn workers, mn allocations, mn workers/alloc)
+type Demand = (u32, u32, u32);
+
+#[derive(Clone, Debug, PartialEq)]
+enum ReportSpec {
+    CallErr,
+    Statuses(BTreeMap<u64, VerifStatus>),
+}
+
+#[derive(Default, Clone)]
+struct Profile {
+    /// probability (in %) that a submission fails
+    p_fail: u64,
+    /// probability (in %) that a submission returns an id that already exists
+    p_dup: u64,
+    /// weights of Q R F X E M
+    status_w: [u64; 6],
+    /// probability (in %) that the whole status call fails
+    p_callerr: u64,
+    /// probability (in %) that the query answer is perturbed (wrong length, bad index, error, oversize mn)
+    p_pert: u64,
+    /// probability (in %) of a multi-node demand
+    p_mn: u64,
+    name: &'static str,
+}
+
+struct Env {
+    now: u64,
+    rng: Rng,
+    replay: bool,
+    profile: Profile,
+    // --- scripts for the current op
+    demand: BTreeMap<u32, Demand>,
+    /// queue tag (time limit) -> queue id is not available from the hook; queries are matched by position
+    /// against `expected_queries` (ids of the queues the harness expects to be asked, from the pre-snapshot)
+    expected_queries: Vec<u32>,
+    script_results: VecDeque<VerifSubmit>,
+    script_query: Option<Option<VerifQueryResponse>>,
+    script_reports: BTreeMap<u32, ReportSpec>,
+    // --- logs of the current op
+    submit_log: Vec<(u32, u64, VerifSubmit)>,
+    rm_log: Vec<(u32, String)>,
+    query_log: Option<(usize, Option<VerifQueryResponse>)>,
+    query_perturbed: bool,
+    status_log: Vec<(u32, Vec<String>, Option<Vec<VerifStatus>>)>,
+    script_underflow: bool,
+    // --- id generation
+    next_alloc_id: u64,
+    known_ids: Vec<u64>,
+}
+
+impl Env {
+    fn new(seed: u64, replay: bool, profile: Profile) -> Env {
+        Env {
+            now: 0,
+            rng: Rng::new(seed ^ 0xA170A110C),
+            replay,
+            profile,
+            demand: Default::default(),
+            expected_queries: vec![],
+            script_results: Default::default(),
+            script_query: None,
+            script_reports: Default::default(),
+            submit_log: vec![],
+            rm_log: vec![],
+            query_log: None,
+            query_perturbed: false,
+            status_log: vec![],
+            script_underflow: false,
+            next_alloc_id: 1,
+            known_ids: vec![],
+        }
+    }
+    fn clear_logs(&mut self) {
+        self.submit_log.clear();
+        self.rm_log.clear();
+        self.query_log = None;
+        self.query_perturbed = false;
+        self.status_log.clear();
+        self.script_underflow = false;
+    }
+}
+
+impl VerifEnv for Env {
+    fn now_ms(&mut self) -> u64 {
+        self.now
+    }
+
+    fn submit(&mut self, queue: u32, workers: u64) -> VerifSubmit {
+        let r = if self.replay {
+            match self.script_results.pop_front() {
+                Some(r) => r,
+                None => {
+                    self.script_underflow = true;
+                    VerifSubmit::Err
+                }
+            }
+        } else if self.rng.chance(self.profile.p_fail, 100) {
+            if self.rng.chance(1, 4) { VerifSubmit::Err } else { VerifSubmit::Fail }
+        } else if !self.known_ids.is_empty() && self.rng.chance(self.profile.p_dup, 100) {
+            let id = *self.rng.pick(&self.known_ids);
+            VerifSubmit::Ok(id.to_string())
+        } else {
+            let id = self.next_alloc_id;
+            self.next_alloc_id += 1;
+            VerifSubmit::Ok(id.to_string())
+        };
+        if let VerifSubmit::Ok(id) = &r {
+            if let Ok(n) = id.parse::<u64>() {
+                if !self.known_ids.contains(&n) {
+                    self.known_ids.push(n);
+                }
+                self.next_alloc_id = self.next_alloc_id.max(n + 1);
+            }
+        }
+        self.submit_log.push((queue, workers, r.clone()));
+        r
+    }
+
+    fn statuses(&mut self, queue: u32, ids: &[String]) -> Option<Vec<VerifStatus>> {
+        let r = if self.replay {
+            match self.script_reports.get(&queue) {
+                Some(ReportSpec::CallErr) => None,
+                Some(ReportSpec::Statuses(m)) => Some(
+                    ids.iter()
+                        .map(|id| id.parse::<u64>().ok().and_then(|n| m.get(&n).copied()).unwrap_or(VerifStatus::Queued))
+                        .collect(),
+                ),
+                None => Some(ids.iter().map(|_| VerifStatus::Queued).collect()),
+            }
+        } else if self.rng.chance(self.profile.p_callerr, 100) {
+            None
+        } else {
+            const ALL: [VerifStatus; 6] = [
+                VerifStatus::Queued,
+                VerifStatus::Running,
+                VerifStatus::Finished,
+                VerifStatus::Failed,
+                VerifStatus::Error,
+                VerifStatus::Missing,
+            ];
+            let w = self.profile.status_w;
+            Some(ids.iter().map(|_| ALL[self.rng.weighted(&w)]).collect())
+        };
+        self.status_log.push((queue, ids.to_vec(), r.clone()));
+        r
+    }
+
+    fn remove(&mut self, queue: u32, id: &str) -> bool {
+        self.rm_log.push((queue, id.to_string()));
+        // the result is only logged by the real code
+        self.replay || self.rng.chance(4, 5)
+    }
+
+    fn query(&mut self, queries: &[VerifQuery]) -> Option<VerifQueryResponse> {
+        let n = queries.len();
+        let r = if self.replay {
+            match self.script_query.take() {
+                Some(r) => r,
+                None => {
+                    self.script_underflow = true;
+                    None
+                }
+            }
+        } else {
+            // the honest answer: the demand of the queues that are asked, by position
+            let mut resp = VerifQueryResponse::default();
+            for (i, _q) in queries.iter().enumerate() {
+                let d = self.expected_queries.get(i).and_then(|q| self.demand.get(q)).copied().unwrap_or((0, 0, 0));
+                resp.single_node_workers_per_query.push(d.0);
+                if d.1 > 0 {
+                    resp.multi_node_allocations.push((i, d.1, d.2));
+                }
+            }
+            if self.expected_queries.len() != n {
+                // the harness mispredicted which queues are asked: do not draw liveness conclusions
+                self.query_perturbed = true;
+            }
+            if self.rng.chance(self.profile.p_pert, 100) {
+                self.query_perturbed = true;
+                match self.rng.below(6) {
+                    0 => None,
+                    1 => Some(VerifQueryResponse::default()), // scheduler did not finish: empty answer
+                    2 => {
+                        resp.single_node_workers_per_query.pop();
+                        Some(resp)
+                    }
+                    3 => {
+                        resp.single_node_workers_per_query.push(self.rng.range(0, 4) as u32);
+                        Some(resp)
+                    }
+                    4 => {
+                        // multi-node answer with a bad index or an oversized / zero allocation
+                        let wt = if self.rng.chance(1, 3) { n + self.rng.below(2) as usize } else { self.rng.below(n as u64) as usize };
+                        let wpa = match self.rng.below(3) {
+                            0 => 0,
+                            1 => queries.get(wt).map(|q| q.max_workers_per_allocation + 1).unwrap_or(2),
+                            _ => 1,
+                        };
+                        resp.multi_node_allocations.push((wt, self.rng.range(1, 2) as u32, wpa));
+                        Some(resp)
+                    }
+                    _ => {
+                        for x in resp.single_node_workers_per_query.iter_mut() {
+                            *x = self.rng.range(0, 9) as u32;
+                        }
+                        Some(resp)
+                    }
+                }
+            } else {
+                Some(resp)
+            }
+        };
+        self.query_log = Some((n, r.clone()));
+        r
+    }
+}
+
+// ------------------------------------------------------------------------------------------------
+// Ops
+// ------------------------------------------------------------------------------------------------
+
+#[derive(Clone, Debug)]
+enum Op {
+    AddQ { bl: u32, wpa: u32, mwc: Option<u32>, limiter: Option<(Vec<u64>, u64, u64)>, qid: Option<u32>, pbs: bool },
+    WConn { w: u32, a: u64 },
+    WLost { w: u32, a: u64, reason: LostWorkerReason, life: u64 },
+    Job,
+    RmQ { q: u32, force: bool },
+    Pause { q: u32 },
+    Resume { q: u32 },
+    Tick { now: u64 },
+    Refresh,
+}
+
+fn reason_str(r: LostWorkerReason) -> &'static str {
+    match r {
+        LostWorkerReason::Stopped => "stopped",
+        LostWorkerReason::ConnectionLost => "connlost",
+        LostWorkerReason::HeartbeatLost => "hblost",
+        LostWorkerReason::IdleTimeout => "idle",
+        LostWorkerReason::TimeLimitReached => "timelimit",
+    }
+}
+
+fn parse_reason(s: &str) -> LostWorkerReason {
+    match s {
+        "stopped" => LostWorkerReason::Stopped,
+        "connlost" => LostWorkerReason::ConnectionLost,
+        "hblost" => LostWorkerReason::HeartbeatLost,
+        "idle" => LostWorkerReason::IdleTimeout,
+        _ => LostWorkerReason::TimeLimitReached,
+    }
+}
+
+fn opt(o: Option<u32>) -> String {
+    o.map(|x| x.to_string()).unwrap_or_else(|| "-".to_string())
+}
+
+fn status_letter(s: VerifStatus) -> &'static str {
+    match s {
+        VerifStatus::Queued => "Q",
+        VerifStatus::Running => "R",
+        VerifStatus::Finished => "F",
+        VerifStatus::Failed => "X",
+        VerifStatus::Error => "E",
+        VerifStatus::Missing => "M",
+    }
+}
+
+fn parse_status(s: &str) -> VerifStatus {
+    match s {
+        "Q" => VerifStatus::Queued,
+        "R" => VerifStatus::Running,
+        "F" => VerifStatus::Finished,
+        "X" => VerifStatus::Failed,
+        "E" => VerifStatus::Error,
+        _ => VerifStatus::Missing,
+    }
+}
+
+fn show_query(q: &Option<(usize, Option<VerifQueryResponse>)>) -> String {
+    match q {
+        None => "none".to_string(),
+        Some((_, None)) => "err".to_string(),
+        Some((_, Some(r))) => format!(
+            "ok:{}:{}",
+            util::list(r.single_node_workers_per_query.iter()),
+            util::list(r.multi_node_allocations.iter().map(|(a, b, c)| format!("{a}/{b}/{c}")))
+        ),
+    }
+}
+
+fn parse_query(s: &str) -> Option<Option<VerifQueryResponse>> {
+    let parts: Vec<&str> = s.split(':').collect();
+    match parts[0] {
+        "none" => None,
+        "err" => Some(None),
+        _ => {
+            let sn = util::parse_list(parts[1]).into_iter().map(|x| x as u32).collect();
+            let mn = if parts[2] == "-" {
+                vec![]
+            } else {
+                parts[2]
+                    .split(',')
+                    .map(|it| {
+                        let v: Vec<u64> = it.split('/').map(|x| x.parse().unwrap()).collect();
+                        (v[0] as usize, v[1] as u32, v[2] as u32)
+                    })
+                    .collect()
+            };
+            Some(Some(VerifQueryResponse { single_node_workers_per_query: sn, multi_node_allocations: mn }))
+        }
+    }
+}
+
+fn show_subres(r: &VerifSubmit) -> String {
+    match r {
+        VerifSubmit::Ok(id) => format!("ok/{id}"),
+        VerifSubmit::Fail => "fail".to_string(),
+        VerifSubmit::Err => "err".to_string(),
+    }
+}
+
+fn arg<'a>(toks: &[&'a str], key: &str) -> Option<&'a str> {
+    toks.iter().find_map(|t| t.split_once('=').filter(|(k, _)| *k == key).map(|(_, v)| v))
+}
+
+// ------------------------------------------------------------------------------------------------
+// Snapshot printing + helpers on snapshots
+// ------------------------------------------------------------------------------------------------
+
+fn aid(s: &str) -> u64 {
+    s.parse::<u64>().unwrap_or(u64::MAX)
+}
+
+fn alloc_line(q: u32, a: &hk::VerifAllocation) -> String {
+    let pre = format!("alloc {} {} t={} ", q, a.id, a.target_worker_count);
+    match &a.state {
+        VerifAllocState::Queued { status_error_count } => format!("{pre}Q e={status_error_count}"),
+        VerifAllocState::Running { connected, disconnected, status_error_count } => {
+            format!("{pre}R e={status_error_count} c={} d={}", util::list(connected), util::list(disconnected))
+        }
+        VerifAllocState::Finished { disconnected } => format!("{pre}F d={}", util::list(disconnected)),
+        VerifAllocState::FinishedUnexpectedly { connected, disconnected, failed } => {
+            format!("{pre}U f={} c={} d={}", *failed as u8, util::list(connected), util::list(disconnected))
+        }
+    }
+}
+
+fn sorted_allocs(q: &VerifQueue) -> Vec<&hk::VerifAllocation> {
+    let mut v: Vec<_> = q.allocations.iter().collect();
+    v.sort_by_key(|a| aid(&a.id));
+    v
+}
+
+fn snapshot_lines(s: &VerifSnapshot) -> Vec<String> {
+    let mut out = vec![];
+    for q in &s.queues {
+        out.push(format!(
+            "queue {} {} bl={} wpa={} mwc={}",
+            q.id,
+            if q.active { "A" } else { "P" },
+            q.backlog,
+            q.max_workers_per_alloc,
+            opt(q.max_worker_count)
+        ));
+        out.push(format!(
+            "lim {} cur={} last={} af={} sf={}",
+            q.id,
+            q.limiter.current_delay,
+            q.limiter.last_submission_ms.map(|x| x.to_string()).unwrap_or_else(|| "-".into()),
+            q.limiter.allocation_fails,
+            q.limiter.submission_fails
+        ));
+        for a in sorted_allocs(q) {
+            out.push(alloc_line(q.id, a));
+        }
+    }
+    let mut a2q: Vec<(u64, u32)> = s.allocation_to_queue.iter().map(|(a, q)| (aid(a), *q)).collect();
+    a2q.sort();
+    out.push(format!("a2q {}", util::list(a2q.iter().map(|(a, q)| format!("{a}:{q}")))));
+    out
+}
+
+fn rank(s: &VerifAllocState) -> u32 {
+    match s {
+        VerifAllocState::Queued { .. } => 0,
+        VerifAllocState::Running { .. } => 1,
+        _ => 2,
+    }
+}
+fn is_active(s: &VerifAllocState) -> bool {
+    rank(s) < 2
+}
+fn is_queued(s: &VerifAllocState) -> bool {
+    rank(s) == 0
+}
+fn queue_of(s: &VerifSnapshot, q: u32) -> Option<&VerifQueue> {
+    s.queues.iter().find(|x| x.id == q)
+}
+fn alloc_of<'a>(q: &'a VerifQueue, a: &str) -> Option<&'a hk::VerifAllocation> {
+    q.allocations.iter().find(|x| x.id == a)
+}
+fn limits_reached(q: &VerifQueue) -> bool {
+    q.limiter.allocation_fails >= q.limiter.max_allocation_fails || q.limiter.submission_fails >= q.limiter.max_submission_fails
+}
+fn elapsed(q: &VerifQueue, now: u64) -> bool {
+    match q.limiter.last_submission_ms {
+        None => true,
+        Some(t) => now.saturating_sub(t) >= q.limiter.delays_ms[q.limiter.current_delay.min(q.limiter.delays_ms.len() - 1)],
+    }
+}
+fn queued_count(q: &VerifQueue) -> u64 {
+    q.allocations.iter().filter(|a| is_queued(&a.state)).count() as u64
+}
+fn active_workers(q: &VerifQueue) -> u64 {
+    q.allocations.iter().filter(|a| is_active(&a.state)).map(|a| a.target_worker_count).sum()
+}
+fn has_space(q: &VerifQueue) -> bool {
+    queued_count(q) < q.backlog as u64 && q.max_worker_count.map(|m| active_workers(q) < m as u64).unwrap_or(true)
+}
+
+/// Reference form of "there is demand and the limits leave room": the allocations the property allows to be
+/// submitted for this demand (specification-level re-statement of `compute_submission_permit`; `None` where the
+/// real code would panic on an adversarial answer).
+fn ref_permit(q: &VerifQueue, d: Demand) -> Option<Vec<u64>> {
+    let (sn0, mn0, mnwpa) = (d.0 as u64, d.1 as u64, d.2 as u64);
+    let wpa = q.max_workers_per_alloc as u64;
+    let mut rem: Option<u64> = q.max_worker_count.map(|m| (m as u64).saturating_sub(active_workers(q)));
+    if rem == Some(0) {
+        return Some(vec![]);
+    }
+    let targets: Vec<u64> = q.allocations.iter().filter(|a| is_queued(&a.state)).map(|a| a.target_worker_count).collect();
+    let covering = targets.iter().filter(|t| mnwpa <= **t).count() as u64;
+    let used_mn = mn0.min(covering);
+    let mn = mn0 - used_mn;
+    let sn = sn0.saturating_sub(targets.iter().sum::<u64>() - used_mn * mnwpa);
+    if wpa == 0 {
+        return None;
+    }
+    let mut cands: Vec<u64> = vec![];
+    for _ in 0..mn.min(64) {
+        cands.push(mnwpa);
+    }
+    for _ in 0..(sn / wpa).min(64) {
+        cands.push(wpa);
+    }
+    if sn % wpa != 0 {
+        cands.push(sn % wpa);
+    }
+    cands.truncate((q.backlog as u64).saturating_sub(targets.len() as u64) as usize);
+    let mut res = vec![];
+    for t in cands {
+        if t > wpa {
+            return None;
+        }
+        let n = rem.map(|r| t.min(r)).unwrap_or(t);
+        if n == 0 {
+            break;
+        }
+        if let Some(r) = rem.as_mut() {
+            *r -= n;
+        }
+        res.push(n);
+    }
+    Some(res)
+}
+
+// ------------------------------------------------------------------------------------------------
+// Monitors (decidable forms of the conclusions of c17_* / c18_*, evaluated on the real code)
+// ------------------------------------------------------------------------------------------------
+
+#[derive(Default, Clone)]
+struct AllocShadow {
+    started: u32,
+    finished: u32,
+    /// workers whose last event for this allocation since it left Queued is a connect
+    conn: BTreeSet<u32>,
+    /// distinct workers lost while Running
+    lost: BTreeSet<u32>,
+}
+
+#[derive(Default)]
+struct Monitors {
+    allocs: BTreeMap<(u32, String), AllocShadow>,
+    /// queues resumed by the user that have not submitted since, not been paused by the user and not seen a new failure
+    armed: BTreeSet<u32>,
+    fails: Vec<(String, String, String)>,
+}
+
+impl Monitors {
+    fn fail(&mut self, clause: &str, sig: &str, detail: String) {
+        self.fails.push((clause.to_string(), sig.to_string(), detail));
+    }
+
+    #[allow(clippy::too_many_arguments)]
+    fn check(&mut self, op: &Op, pre: &VerifSnapshot, post: &VerifSnapshot, events: &[VerifEvent], env: &Env,
+             resp_ok: bool, tick_res: Option<Option<bool>>) {
+        // ---------------- C17: limits (state invariant)
+        for q in &post.queues {
+            if queued_count(q) > q.backlog as u64 {
+                self.fail("c17.backlog", "queued-exceeds-backlog", format!("queue {} queued={} backlog={}", q.id, queued_count(q), q.backlog));
+            }
+            if let Some(m) = q.max_worker_count {
+                if active_workers(q) > m as u64 {
+                    self.fail("c17.max_workers", "active-exceeds-max-worker-count", format!("queue {} active_workers={} max={}", q.id, active_workers(q), m));
+                }
+            }
+            for a in &q.allocations {
+                if a.target_worker_count < 1 || a.target_worker_count > q.max_workers_per_alloc as u64 {
+                    self.fail("c17.target", "target-out-of-range", format!("queue {} alloc {} target={} wpa={}", q.id, a.id, a.target_worker_count, q.max_workers_per_alloc));
+                }
+            }
+            // paused -> active only through a resume request
+            if let Some(pq) = queue_of(pre, q.id) {
+                if !pq.active && q.active && !matches!(op, Op::Resume { q: r } if *r == q.id) {
+                    self.fail("c17.silent", "unpaused-without-resume", format!("queue {}", q.id));
+                }
+            }
+        }
+        // ---------------- C17: submit calls
+        if !matches!(op, Op::Tick { .. }) && !env.submit_log.is_empty() {
+            self.fail("c17.silent", "submit-outside-tick", format!("{:?}", env.submit_log));
+        }
+        if let Op::Tick { now } = op {
+            // which queues were asked, and the answer each got (by position, as perform_submits zips them)
+            let asked: Vec<u32> = pre.queue_order.iter().copied()
+                .filter(|id| queue_of(pre, *id).map(|q| q.active && !limits_reached(q)).unwrap_or(false)).collect();
+            let mut answers: BTreeMap<u32, Demand> = BTreeMap::new();
+            if let Some((_, Some(r))) = &env.query_log {
+                for (i, sn) in r.single_node_workers_per_query.iter().enumerate() {
+                    if let Some(q) = asked.get(i) {
+                        answers.insert(*q, (*sn, 0, 0));
+                    }
+                }
+                for (wt, allocs, wpa) in &r.multi_node_allocations {
+                    if *wt < r.single_node_workers_per_query.len() {
+                        if let Some(q) = asked.get(*wt) {
+                            if let Some(d) = answers.get_mut(q) {
+                                d.1 = *allocs;
+                                d.2 = *wpa;
+                            }
+                        }
+                    }
+                }
+            }
+            let mut first_call: BTreeSet<u32> = BTreeSet::new();
+            let mut per_queue: BTreeMap<u32, Vec<u64>> = BTreeMap::new();
+            for (qid, n, _) in &env.submit_log {
+                per_queue.entry(*qid).or_default().push(*n);
+                match queue_of(pre, *qid) {
+                    None => self.fail("c17.silent", "submit-for-unknown-queue", format!("queue {qid}")),
+                    Some(q) => {
+                        if *n < 1 || *n > q.max_workers_per_alloc as u64 {
+                            self.fail("c17.target", "submit-size-out-of-range", format!("queue {qid} workers={n} wpa={}", q.max_workers_per_alloc));
+                        }
+                        if first_call.insert(*qid) {
+                            if !q.active {
+                                self.fail("c17.silent", "submit-while-paused", format!("queue {qid}"));
+                            }
+                            if limits_reached(q) {
+                                self.fail("c17.silent", "submit-after-failure-limit", format!("queue {qid} af={} sf={}", q.limiter.allocation_fails, q.limiter.submission_fails));
+                            }
+                            if !elapsed(q, *now) {
+                                self.fail("c17.silent", "submit-before-backoff-elapsed", format!("queue {qid} now={now} last={:?} cur={}", q.limiter.last_submission_ms, q.limiter.current_delay));
+                            }
+                            if !has_space(q) {
+                                self.fail("c17.silent", "submit-without-space", format!("queue {qid}"));
+                            }
+                            match answers.get(qid) {
+                                Some(d) if d.0 > 0 || d.1 > 0 => {}
+                                _ => self.fail("c17.silent", "submit-without-demand", format!("queue {qid} answer={:?}", answers.get(qid))),
+                            }
+                        }
+                    }
+                }
+            }
+            // the calls of one tick stay inside what the limits allow for the answered demand
+            for (qid, calls) in &per_queue {
+                if let (Some(q), Some(d)) = (queue_of(pre, *qid), answers.get(qid)) {
+                    if let Some(allowed) = ref_permit(q, *d) {
+                        if calls.len() > allowed.len() || calls.iter().zip(&allowed).any(|(a, b)| a != b) {
+                            self.fail("c17.silent", "submit-beyond-permit", format!("queue {qid} calls={calls:?} allowed={allowed:?}"));
+                        }
+                    }
+                }
+            }
+            // paused after the failure limits at the end of every tick
+            if tick_res.is_some() {
+                for q in &post.queues {
+                    if limits_reached(q) && q.active {
+                        self.fail("c17.pause_limit", "active-after-failure-limit", format!("queue {} af={} sf={}", q.id, q.limiter.allocation_fails, q.limiter.submission_fails));
+                    }
+                }
+            }
+            // resume liveness
+            if !env.query_perturbed && !env.replay_unknown_demand() && !env.script_underflow {
+                for qid in self.armed.clone() {
+                    let Some(q) = queue_of(pre, qid) else { continue };
+                    let d = env.demand.get(&qid).copied().unwrap_or((0, 0, 0));
+                    let demand = d.0 > 0 || d.1 > 0;
+                    let room = ref_permit(q, d).map(|p| !p.is_empty()).unwrap_or(false);
+                    if demand && room && elapsed(q, *now) && !per_queue.contains_key(&qid) {
+                        let sig = if limits_reached(q) { "paused-by-limits-counters-kept" } else { "no-submit" };
+                        self.fail("c17.resume_live", sig, format!(
+                            "queue {qid} was resumed, this tick has demand {d:?}, room and elapsed back-off, but nothing was submitted (af={}/{} sf={}/{} state_before={} state_after={})",
+                            q.limiter.allocation_fails, q.limiter.max_allocation_fails, q.limiter.submission_fails, q.limiter.max_submission_fails,
+                            if q.active { "active" } else { "paused" },
+                            queue_of(post, qid).map(|x| if x.active { "active" } else { "paused" }).unwrap_or("gone")));
+                        self.armed.remove(&qid);
+                    }
+                }
+            }
+            for qid in per_queue.keys() {
+                self.armed.remove(qid);
+            }
+        }
+        // arming / disarming
+        match op {
+            Op::Resume { q } if resp_ok => {
+                self.armed.insert(*q);
+            }
+            Op::Pause { q } => {
+                self.armed.remove(q);
+            }
+            Op::RmQ { q, .. } if resp_ok => {
+                self.armed.remove(q);
+            }
+            _ => {}
+        }
+        for q in &post.queues {
+            if let Some(pq) = queue_of(pre, q.id) {
+                if q.limiter.allocation_fails > pq.limiter.allocation_fails || q.limiter.submission_fails > pq.limiter.submission_fails {
+                    self.armed.remove(&q.id);
+                }
+            }
+        }
+
+        // ---------------- C18
+        let removed_queue = match op {
+            Op::RmQ { q, .. } if resp_ok => Some(*q),
+            _ => None,
+        };
+        // worker-event shadows (before looking at the post state)
+        let mut touched: Option<(u32, String)> = None;
+        let mut unknown = false;
+        match op {
+            Op::WConn { a, .. } | Op::WLost { a, .. } => {
+                let a_str = a.to_string();
+                match pre.allocation_to_queue.iter().find(|(x, _)| *x == a_str) {
+                    None => unknown = true,
+                    Some((_, qid)) => touched = Some((*qid, a_str)),
+                }
+            }
+            _ => {}
+        }
+        if unknown {
+            if snapshot_lines(pre) != snapshot_lines(post) || !events.is_empty() {
+                self.fail("c18.unknown", "unknown-allocation-changed-state", format!("{op:?} events={events:?}"));
+            }
+        }
+        if let Some((qid, a_str)) = &touched {
+            if let Some(pa) = queue_of(pre, *qid).and_then(|q| alloc_of(q, a_str)) {
+                let sh = self.allocs.entry((*qid, a_str.clone())).or_default();
+                match (op, &pa.state) {
+                    (Op::WConn { w, .. }, VerifAllocState::Queued { .. }) => {
+                        sh.conn = BTreeSet::from([*w]);
+                    }
+                    (Op::WConn { w, .. }, VerifAllocState::Running { .. }) => {
+                        sh.conn.insert(*w);
+                    }
+                    (Op::WLost { w, .. }, VerifAllocState::Running { .. }) => {
+                        sh.conn.remove(w);
+                        sh.lost.insert(*w);
+                        let reached = sh.lost.len() as u64 == pa.target_worker_count;
+                        let fin = queue_of(post, *qid).and_then(|q| alloc_of(q, a_str)).map(|x| matches!(x.state, VerifAllocState::Finished { .. })).unwrap_or(false);
+                        if reached != fin {
+                            let detail = format!("queue {qid} alloc {a_str}: distinct lost while running={} target={} finished-normally={fin}", sh.lost.len(), pa.target_worker_count);
+                            self.fail("c18.finish", if reached { "not-finished-at-target" } else { "finished-before-target" }, detail);
+                        }
+                    }
+                    _ => {}
+                }
+            }
+        }
+        // events
+        for e in events {
+            match e {
+                VerifEvent::AllocationStarted(q, a) => {
+                    let sh = self.allocs.entry((*q, a.clone())).or_default();
+                    sh.started += 1;
+                    let (started, finished) = (sh.started, sh.finished);
+                    if started > 1 {
+                        self.fail("c18.announce", "started-twice", format!("queue {q} alloc {a}"));
+                    }
+                    if finished > 0 {
+                        self.fail("c18.announce", "started-after-finished", format!("queue {q} alloc {a}"));
+                    }
+                }
+                VerifEvent::AllocationFinished(q, a) => {
+                    let sh = self.allocs.entry((*q, a.clone())).or_default();
+                    sh.finished += 1;
+                    let finished = sh.finished;
+                    if finished > 1 {
+                        self.fail("c18.announce", "finished-twice", format!("queue {q} alloc {a}"));
+                    }
+                }
+                VerifEvent::Other => self.fail("c18.announce", "foreign-event", format!("{op:?}")),
+                _ => {}
+            }
+        }
+        // per allocation: rank, absorbing, announce <-> state, connected set
+        for pq in &pre.queues {
+            if Some(pq.id) == removed_queue {
+                continue;
+            }
+            let Some(q) = queue_of(post, pq.id) else {
+                self.fail("c18.monotone", "queue-vanished", format!("queue {}", pq.id));
+                continue;
+            };
+            for pa in &pq.allocations {
+                match alloc_of(q, &pa.id) {
+                    None => self.fail("c18.monotone", "allocation-vanished", format!("queue {} alloc {}", q.id, pa.id)),
+                    Some(a) => {
+                        if rank(&a.state) < rank(&pa.state) {
+                            self.fail("c18.monotone", "rank-decreased", format!("queue {} alloc {}: {} -> {}", q.id, a.id, alloc_line(q.id, pa), alloc_line(q.id, a)));
+                        }
+                        if rank(&pa.state) == 2 && alloc_line(q.id, pa) != alloc_line(q.id, a) {
+                            self.fail("c18.monotone", "finished-not-absorbing", format!("queue {} alloc {}: {} -> {}", q.id, a.id, alloc_line(q.id, pa), alloc_line(q.id, a)));
+                        }
+                        if !matches!(pa.state, VerifAllocState::Finished { .. }) && matches!(a.state, VerifAllocState::Finished { .. })
+                            && !matches!(op, Op::WLost { .. })
+                        {
+                            self.fail("c18.finish", "normal-finish-without-worker-loss", format!("queue {} alloc {} op={op:?}", q.id, a.id));
+                        }
+                    }
+                }
+            }
+        }
+        for q in &post.queues {
+            for a in &q.allocations {
+                let sh = self.allocs.entry((q.id, a.id.clone())).or_default().clone();
+                let fin_state = rank(&a.state) == 2;
+                if fin_state != (sh.finished == 1) {
+                    self.fail("c18.announce", if fin_state { "finished-without-event" } else { "event-without-finished-state" },
+                              format!("queue {} alloc {} finished-events={} state={}", q.id, a.id, sh.finished, alloc_line(q.id, a)));
+                }
+                if let VerifAllocState::Running { connected, .. } = &a.state {
+                    let c: Vec<u32> = sh.conn.iter().copied().collect();
+                    if &c != connected {
+                        self.fail("c18.workers", "connected-set-wrong", format!("queue {} alloc {} connected={connected:?} expected={c:?}", q.id, a.id));
+                    }
+                }
+            }
+        }
+        // remove_queue
+        if let Op::RmQ { q, .. } = op {
+            let mut calls: Vec<u64> = env.rm_log.iter().map(|(_, a)| aid(a)).collect();
+            calls.sort();
+            if resp_ok {
+                let pq = queue_of(pre, *q);
+                let mut expected: Vec<u64> = pq.map(|x| x.allocations.iter().filter(|a| is_active(&a.state)).map(|a| aid(&a.id)).collect()).unwrap_or_default();
+                expected.sort();
+                if calls != expected || env.rm_log.iter().any(|(x, _)| x != q) {
+                    self.fail("c18.remove_queue", "remove-calls-not-once-per-active-allocation", format!("queue {q} calls={calls:?} expected={expected:?}"));
+                }
+                if queue_of(post, *q).is_some() {
+                    self.fail("c18.remove_queue", "queue-still-present", format!("queue {q}"));
+                }
+                if let Some(pq) = pq {
+                    for a in &pq.allocations {
+                        if post.allocation_to_queue.iter().any(|(x, _)| *x == a.id) {
+                            self.fail("c18.remove_queue", "index-entry-left", format!("queue {q} alloc {}", a.id));
+                        }
+                    }
+                }
+                self.allocs.retain(|(x, _), _| x != q);
+                if !events.contains(&VerifEvent::QueueRemoved(*q)) {
+                    self.fail("c18.remove_queue", "no-removed-event", format!("queue {q}"));
+                }
+            } else if !calls.is_empty() || snapshot_lines(pre) != snapshot_lines(post) {
+                self.fail("c18.remove_queue", "refused-removal-had-effects", format!("queue {q} calls={calls:?}"));
+            }
+        } else if !env.rm_log.is_empty() {
+            self.fail("c18.remove_queue", "remove-call-outside-queue-removal", format!("{:?}", env.rm_log));
+        }
+    }
+}
+
+impl Env {
+    /// in replay mode the demand of a tick is only known when the trace carries it
+    fn replay_unknown_demand(&self) -> bool {
+        self.replay && self.demand.is_empty()
+    }
+}
+
+// ------------------------------------------------------------------------------------------------
+// Case execution
+// ------------------------------------------------------------------------------------------------
+
+/// Trace writer that can be muted (the probe runs ops without printing them).
+struct Sink<'a> {
+    tr: Option<&'a mut Trace>,
+}
+
+impl Sink<'_> {
+    fn op(&mut self, s: &str) {
+        if let Some(t) = self.tr.as_mut() { t.op(s) }
+    }
+    fn out(&mut self, s: &str) {
+        if let Some(t) = self.tr.as_mut() { t.out(s) }
+    }
+    fn mon_fail(&mut self, c: &str, s: &str, d: &str) {
+        if let Some(t) = self.tr.as_mut() { t.mon_fail(c, s, d) }
+    }
+    fn case(&mut self, idx: u64, subseed: u64, params: &str) {
+        if let Some(t) = self.tr.as_mut() { t.case(idx, subseed, params) }
+    }
+    fn end(&mut self) {
+        if let Some(t) = self.tr.as_mut() { t.end() }
+    }
+}
+
+struct Case {
+    rt: tokio::runtime::Runtime,
+    va: Option<VerifAutoAlloc>,
+    env: Rc<RefCell<Env>>,
+    mon: Monitors,
+    dead: bool,
+}
+
+fn panic_site(msg: &str) -> &'static str {
+    if msg.contains("Invalid queue index") {
+        "query-index"
+    } else if msg.contains("target_worker_count <= info.max_workers_per_alloc") {
+        "permit-assert"
+    } else if msg.contains("remainder with a divisor of zero") {
+        "rem-zero"
+    } else if msg.contains("self.allocations") {
+        "dup-alloc"
+    } else if msg.contains("allocation_to_queue.remove") {
+        "a2q-missing"
+    } else if msg.contains("self.queues.insert") {
+        "dup-queue"
+    } else {
+        "other"
+    }
+}
+
+impl Case {
+    fn new(seed: u64, replay: bool, profile: Profile, nextq: u32) -> Case {
+        let env = Rc::new(RefCell::new(Env::new(seed, replay, profile)));
+        let rt = tokio::runtime::Builder::new_current_thread().enable_all().build().unwrap();
+        let va = VerifAutoAlloc::new(nextq, env.clone());
+        Case { rt, va: Some(va), env, mon: Monitors::default(), dead: false }
+    }
+
+    fn snapshot(&self) -> VerifSnapshot {
+        self.va.as_ref().unwrap().snapshot()
+    }
+
+    /// Applies one op to the real code and prints `op`, `out`, `mon` lines.
+    fn apply(&mut self, tr: &mut Sink, op: &Op) {
+        let pre = self.snapshot();
+        self.env.borrow_mut().clear_logs();
+        if let Op::Tick { now } = op {
+            let mut env = self.env.borrow_mut();
+            env.now = *now;
+            env.expected_queries = pre.queue_order.iter().copied()
+                .filter(|id| queue_of(&pre, *id).map(|q| q.active && !limits_reached(q)).unwrap_or(false)).collect();
+        }
+        let mut va = self.va.take().unwrap();
+        let rt = &self.rt;
+        // (outs before the snapshot, response-ok flag, tick result)
+        let mut heads: Vec<String> = vec![];
+        let mut resp_ok = false;
+        let mut tick_res: Option<Option<bool>> = None;
+        let mut created: Option<u32> = None;
+        let result = util::catch(|| match op {
+            Op::AddQ { bl, wpa, mwc, limiter, qid, pbs } => {
+                let (sched, id) = rt.block_on(va.add_queue(VerifQueueParams {
+                    pbs: *pbs,
+                    backlog: *bl,
+                    max_workers_per_alloc: *wpa,
+                    max_worker_count: *mwc,
+                    limiter: limiter.clone(),
+                    queue_id: *qid,
+                }));
+                created = id;
+                resp_ok = id.is_some();
+                heads.push(match id {
+                    Some(id) => format!("resp ok {id}"),
+                    None => "resp err".to_string(),
+                });
+                heads.push(format!("sched {}", sched as u8));
+            }
+            Op::WConn { w, a } => {
+                let sched = rt.block_on(va.worker_connected(*w, &a.to_string()));
+                heads.push(format!("sched {}", sched as u8));
+            }
+            Op::WLost { w, a, reason, life } => {
+                let sched = rt.block_on(va.worker_lost(*w, &a.to_string(), *reason, Duration::from_millis(*life)));
+                heads.push(format!("sched {}", sched as u8));
+            }
+            Op::Job => {
+                let sched = rt.block_on(va.job_submitted(1));
+                heads.push(format!("sched {}", sched as u8));
+            }
+            Op::RmQ { q, force } => {
+                let (sched, r) = rt.block_on(va.remove_queue(*q, *force));
+                resp_ok = r == VerifRemoveResult::Ok;
+                heads.push(format!("resp {}", match r {
+                    VerifRemoveResult::Ok => "ok",
+                    VerifRemoveResult::NotFound => "notfound",
+                    VerifRemoveResult::HasRunning => "running",
+                    VerifRemoveResult::OtherError => "err",
+                }));
+                heads.push(format!("sched {}", sched as u8));
+            }
+            Op::Pause { q } => {
+                let (sched, found) = rt.block_on(va.pause_queue(*q));
+                resp_ok = found;
+                heads.push(format!("resp {}", if found { "ok" } else { "notfound" }));
+                heads.push(format!("sched {}", sched as u8));
+            }
+            Op::Resume { q } => {
+                let (sched, found) = rt.block_on(va.resume_queue(*q));
+                resp_ok = found;
+                heads.push(format!("resp {}", if found { "ok" } else { "notfound" }));
+                heads.push(format!("sched {}", sched as u8));
+            }
+            Op::Tick { .. } => {
+                tick_res = Some(rt.block_on(va.scheduling_tick()));
+            }
+            Op::Refresh => {
+                let ran = rt.block_on(va.periodic_update());
+                heads.push(format!("ran {}", ran as u8));
+            }
+        });
+        let events = va.drain_events();
+        // ---- op line with the resolved choices
+        let env = self.env.borrow();
+        let op_line = match op {
+            Op::AddQ { bl, wpa, mwc, qid, .. } => {
+                // limiter constants as the implementation has them now
+                let lim = created.and_then(|id| va.snapshot().queues.into_iter().find(|q| q.id == id)).map(|q| q.limiter);
+                let (delays, msf, maf) = match (&lim, op) {
+                    (Some(l), _) => (l.delays_ms.clone(), l.max_submission_fails, l.max_allocation_fails),
+                    (None, Op::AddQ { limiter: Some((d, s, a)), .. }) => (d.clone(), *s, *a),
+                    _ => {
+                        let c = hk::constants();
+                        (c.submission_delays_ms, c.max_submission_fails, c.max_allocation_fails)
+                    }
+                };
+                format!("addq bl={bl} wpa={wpa} mwc={} delays={} msf={msf} maf={maf} qid={}", opt(*mwc), util::list(delays), opt(*qid))
+            }
+            Op::WConn { w, a } => format!("wconn w={w} a={a}"),
+            Op::WLost { w, a, reason, life } => format!("wlost w={w} a={a} r={} life={life}", reason_str(*reason)),
+            Op::Job => "job".to_string(),
+            Op::RmQ { q, force } => format!("rmq q={q} force={}", *force as u8),
+            Op::Pause { q } => format!("pause q={q}"),
+            Op::Resume { q } => format!("resume q={q}"),
+            Op::Tick { now } => format!(
+                "tick now={now} order={} resp={} res={} dem={} pert={}",
+                util::list(pre.queue_order.iter()),
+                show_query(&env.query_log),
+                util::list(env.submit_log.iter().map(|(_, _, r)| show_subres(r))),
+                util::list(env.demand.iter().map(|(q, d)| format!("{q}:{}/{}/{}", d.0, d.1, d.2))),
+                env.query_perturbed as u8
+            ),
+            Op::Refresh => {
+                let reps: Vec<String> = env.status_log.iter().map(|(q, ids, r)| match r {
+                    None => format!("{q}@!{}", util::list(ids.iter())),
+                    Some(sts) => format!("{q}@{}", util::list(ids.iter().zip(sts).map(|(i, s)| format!("{i}:{}", status_letter(*s))))),
+                }).collect();
+                format!("refresh rep={}", if reps.is_empty() { "-".to_string() } else { reps.join(";") })
+            }
+        };
+        tr.op(&op_line);
+        // ---- outs in the canonical order of the model: rm (sorted), then in emission order
+        let mut rms: Vec<(u32, u64)> = env.rm_log.iter().map(|(q, a)| (*q, aid(a))).collect();
+        rms.sort_by_key(|x| x.1);
+        for (q, a) in rms {
+            tr.out(&format!("rm {q} {a}"));
+        }
+        if matches!(op, Op::Tick { .. }) {
+            if let Some((n, _)) = &env.query_log {
+                tr.out(&format!("query {n}"));
+            }
+            // submit calls and AllocationQueued events interleave: call, then (on success) the event
+            let mut evs = events.iter();
+            for (q, n, r) in &env.submit_log {
+                tr.out(&format!("submit {q} {n}"));
+                if matches!(r, VerifSubmit::Ok(_)) {
+                    if let Some(e) = evs.next() {
+                        tr.out(&event_line(e));
+                    }
+                }
+            }
+            for e in evs {
+                tr.out(&event_line(e));
+            }
+            if env.script_underflow {
+                tr.out("!bad-op script-underflow");
+            }
+            if env.replay && !env.script_results.is_empty() && result.is_ok() {
+                tr.out("!bad-op unused-submit-results");
+            }
+        } else {
+            // events first (queue created / started / finished), then response lines, as the model orders them
+            for e in &events {
+                tr.out(&event_line(e));
+            }
+        }
+        match &result {
+            Err(msg) => {
+                tr.out(&format!("!panic {}", panic_site(msg)));
+                drop(env);
+                self.dead = true;
+                // the state may be inconsistent after a panic: the case ends here
+                self.va = Some(va);
+                return;
+            }
+            Ok(()) => {}
+        }
+        if let Some(r) = tick_res {
+            tr.out(&format!("tickres {}", match r {
+                None => "skipped",
+                Some(true) => "ok",
+                Some(false) => "err",
+            }));
+        }
+        for h in &heads {
+            tr.out(h);
+        }
+        let post = va.snapshot();
+        for l in snapshot_lines(&post) {
+            tr.out(&l);
+        }
+        self.mon.check(op, &pre, &post, &events, &env, resp_ok, tick_res);
+        for (c, s, d) in self.mon.fails.drain(..) {
+            tr.mon_fail(&c, &s, &d);
+        }
+        drop(env);
+        self.va = Some(va);
+    }
+}
+
+fn event_line(e: &VerifEvent) -> String {
+    match e {
+        VerifEvent::QueueCreated(q) => format!("ev qcreated {q}"),
+        VerifEvent::QueueRemoved(q) => format!("ev qremoved {q}"),
+        VerifEvent::AllocationQueued { queue_id, allocation_id, worker_count } => format!("ev queued {queue_id} {allocation_id} {worker_count}"),
+        VerifEvent::AllocationStarted(q, a) => format!("ev started {q} {a}"),
+        VerifEvent::AllocationFinished(q, a) => format!("ev finished {q} {a}"),
+        VerifEvent::Other => "ev other".to_string(),
+    }
+}
+
+// ------------------------------------------------------------------------------------------------
+// Probing the behaviour of `resume` (which limiter fields it resets) on the running implementation
+// ------------------------------------------------------------------------------------------------
+
+fn probe_resume_mask() -> u64 {
+    let profile = Profile { name: "probe", ..Default::default() };
+    let mut c = Case::new(0, true, profile, 1);
+    let mut sink = Sink { tr: None };
+    c.apply(&mut sink, &Op::AddQ { bl: 2, wpa: 1, mwc: None, limiter: Some((vec![0, 1000, 5000], 5, 5)), qid: None, pbs: false });
+    // one successful submission, then it fails externally, then a failed submission
+    {
+        let mut env = c.env.borrow_mut();
+        env.script_query = Some(Some(VerifQueryResponse { single_node_workers_per_query: vec![1], multi_node_allocations: vec![] }));
+        env.script_results = VecDeque::from([VerifSubmit::Ok("1".into())]);
+    }
+    c.apply(&mut sink, &Op::Tick { now: 0 });
+    c.env.borrow_mut().script_reports = BTreeMap::from([(1, ReportSpec::Statuses(BTreeMap::from([(1, VerifStatus::Failed)])))]);
+    c.apply(&mut sink, &Op::Refresh);
+    {
+        let mut env = c.env.borrow_mut();
+        env.script_query = Some(Some(VerifQueryResponse { single_node_workers_per_query: vec![1], multi_node_allocations: vec![] }));
+        env.script_results = VecDeque::from([VerifSubmit::Fail]);
+    }
+    c.apply(&mut sink, &Op::Tick { now: 100_000 });
+    c.apply(&mut sink, &Op::Pause { q: 1 });
+    let before = c.snapshot().queues[0].limiter.clone();
+    c.apply(&mut sink, &Op::Resume { q: 1 });
+    let after = c.snapshot().queues[0].limiter.clone();
+    assert!(before.allocation_fails > 0 && before.submission_fails > 0 && before.current_delay > 0 && before.last_submission_ms.is_some(),
+            "probe did not reach the intended limiter state: {before:?}");
+    let mut mask = 0;
+    if after.allocation_fails == 0 { mask |= 1; }
+    if after.submission_fails == 0 { mask |= 2; }
+    if after.current_delay == 0 { mask |= 4; }
+    if after.last_submission_ms.is_none() { mask |= 8; }
+    mask
+}
+
+// ------------------------------------------------------------------------------------------------
+// Generator
+// ------------------------------------------------------------------------------------------------
+
+const PROFILES: [Profile; 6] = [
+    Profile { name: "normal", p_fail: 15, p_dup: 0, status_w: [40, 25, 10, 10, 10, 5], p_callerr: 4, p_pert: 0, p_mn: 15 },
+    Profile { name: "failing", p_fail: 65, p_dup: 0, status_w: [25, 10, 5, 45, 10, 5], p_callerr: 4, p_pert: 0, p_mn: 10 },
+    Profile { name: "errors", p_fail: 10, p_dup: 0, status_w: [15, 10, 5, 5, 60, 5], p_callerr: 25, p_pert: 0, p_mn: 10 },
+    Profile { name: "workers", p_fail: 5, p_dup: 0, status_w: [45, 40, 5, 5, 3, 2], p_callerr: 2, p_pert: 0, p_mn: 25 },
+    Profile { name: "adversarial", p_fail: 20, p_dup: 12, status_w: [25, 20, 15, 15, 15, 10], p_callerr: 8, p_pert: 25, p_mn: 30 },
+    Profile { name: "resume", p_fail: 80, p_dup: 0, status_w: [20, 10, 5, 55, 5, 5], p_callerr: 2, p_pert: 0, p_mn: 5 },
+];
+
+fn gen_case(tr: &mut Sink, idx: u64, subseed: u64, thorough: bool, rmask: u64, forced_profile: Option<&str>) {
+    let mut rng = Rng::new(subseed);
+    let weights = [30, 18, 10, 18, 12, 12];
+    let mut profile = PROFILES[rng.weighted(&weights)].clone();
+    if let Some(name) = forced_profile {
+        profile = PROFILES.iter().find(|p| p.name == name).cloned().unwrap_or(profile);
+    }
+    let adversarial = profile.name == "adversarial";
+    let consts = hk::constants();
+    let nextq = rng.range(1, 3) as u32;
+    let steps = if thorough { rng.range(40, 110) } else { rng.range(25, 70) };
+    tr.case(idx, subseed, &format!(
+        "qerr={} rerr={} rmask={rmask} nextq={nextq} profile={} steps={steps}",
+        consts.max_queued_status_error_count, consts.max_running_status_error_count, profile.name
+    ));
+    let mut c = Case::new(subseed, false, profile.clone(), nextq);
+    let mut removed_queues: Vec<u32> = vec![];
+    // a burst repeats the same kind of op (error streaks, back-off ladders)
+    let mut burst: Option<(u8, u64)> = None;
+    for step in 0..steps {
+        if c.dead {
+            break;
+        }
+        let snap = c.snapshot();
+        let qids: Vec<u32> = snap.queues.iter().map(|q| q.id).collect();
+        let known: Vec<u64> = c.env.borrow().known_ids.clone();
+        let any_q = |rng: &mut Rng| -> u32 {
+            if !qids.is_empty() && rng.chance(9, 10) { *rng.pick(&qids) }
+            else if !removed_queues.is_empty() && rng.chance(1, 2) { *rng.pick(&removed_queues) }
+            else { rng.range(1, 6) as u32 }
+        };
+        let kind = if step == 0 || qids.is_empty() && rng.chance(4, 5) {
+            0
+        } else if let Some((k, n)) = burst {
+            burst = if n > 1 { Some((k, n - 1)) } else { None };
+            k
+        } else {
+            let add_w = if qids.len() >= 3 { 0 } else if qids.len() == 1 { 5 } else { 3 };
+            let resume_w = if profile.name == "resume" || profile.name == "failing" { 9 } else { 4 };
+            let k = rng.weighted(&[add_w, 16, 16, 2, 3, 3, resume_w, 30, 14]) as u8;
+            if (k == 7 || k == 8) && rng.chance(1, 7) {
+                burst = Some((k, rng.range(3, if k == 8 { 24 } else { 12 })));
+            }
+            k
+        };
+        let op = match kind {
+            0 => {
+                let wpa = if adversarial && rng.chance(1, 12) { 0 } else { rng.range(1, 3) as u32 };
+                let mwc = if rng.chance(1, 3) { None } else { Some(rng.range(if adversarial { 0 } else { 1 }, 6) as u32) };
+                let limiter = if rng.chance(1, 3) {
+                    None
+                } else {
+                    let delays = match rng.below(5) {
+                        0 => vec![0],
+                        1 => vec![0, 1000, 10_000],
+                        2 => vec![500, 2000],
+                        3 => vec![0, 0, 3000],
+                        _ => vec![100],
+                    };
+                    Some((delays, rng.range(1, 4), rng.range(1, 3)))
+                };
+                let qid = if adversarial && rng.chance(1, 4) { Some(rng.range(1, 5) as u32) } else { None };
+                Op::AddQ { bl: rng.range(1, 3) as u32, wpa, mwc, limiter, qid, pbs: rng.chance(1, 2) }
+            }
+            1 | 2 => {
+                // worker connect / loss: mostly known allocations, some unknown
+                let a = if !known.is_empty() && rng.chance(9, 10) { *rng.pick(&known) } else { 900 + rng.below(3) };
+                // prefer allocations that are still active
+                let a = {
+                    let active: Vec<u64> = snap.queues.iter().flat_map(|q| q.allocations.iter()).filter(|x| is_active(&x.state)).map(|x| aid(&x.id)).collect();
+                    if !active.is_empty() && rng.chance(7, 10) { *rng.pick(&active) } else { a }
+                };
+                let w = rng.range(1, 5) as u32;
+                if kind == 1 {
+                    Op::WConn { w, a }
+                } else {
+                    // prefer a connected worker of that allocation
+                    let conn: Vec<u32> = snap.queues.iter().flat_map(|q| q.allocations.iter()).filter(|x| aid(&x.id) == a)
+                        .flat_map(|x| match &x.state { VerifAllocState::Running { connected, .. } => connected.clone(), _ => vec![] }).collect();
+                    let w = if !conn.is_empty() && rng.chance(2, 3) { *rng.pick(&conn) } else { w };
+                    let reason = *rng.pick(&[LostWorkerReason::Stopped, LostWorkerReason::ConnectionLost, LostWorkerReason::ConnectionLost,
+                        LostWorkerReason::HeartbeatLost, LostWorkerReason::IdleTimeout, LostWorkerReason::TimeLimitReached]);
+                    let life = *rng.pick(&[1, 1000, 59_999, 60_000, 60_001, 3_600_000]);
+                    Op::WLost { w, a, reason, life }
+                }
+            }
+            3 => Op::Job,
+            4 => Op::RmQ { q: any_q(&mut rng), force: rng.chance(1, 2) },
+            5 => Op::Pause { q: any_q(&mut rng) },
+            6 => {
+                // prefer paused queues
+                let paused: Vec<u32> = snap.queues.iter().filter(|q| !q.active).map(|q| q.id).collect();
+                let q = if !paused.is_empty() && rng.chance(4, 5) { *rng.pick(&paused) } else { any_q(&mut rng) };
+                Op::Resume { q }
+            }
+            7 => {
+                // advance the clock around the back-off delay of some queue
+                let now0 = c.env.borrow().now;
+                let mut cands: Vec<u64> = vec![now0, now0 + rng.range(1, 50)];
+                for q in &snap.queues {
+                    if let Some(last) = q.limiter.last_submission_ms {
+                        let d = q.limiter.delays_ms[q.limiter.current_delay.min(q.limiter.delays_ms.len() - 1)];
+                        for t in [(last + d).saturating_sub(1), last + d, last + d + 1] {
+                            if t >= now0 { cands.push(t); cands.push(t); }
+                        }
+                    }
+                }
+                if rng.chance(1, 10) {
+                    cands.push(now0 + 4_000_000);
+                }
+                let now = *rng.pick(&cands);
+                // demand of every queue (what the scheduler would answer)
+                let mut env = c.env.borrow_mut();
+                env.demand.clear();
+                for q in &snap.queues {
+                    let sn = if rng.chance(1, 4) { 0 } else { rng.range(1, 7) as u32 };
+                    let (mna, mnw) = if rng.chance(profile.p_mn, 100) && q.max_workers_per_alloc > 0 {
+                        (rng.range(1, 2) as u32, rng.range(1, q.max_workers_per_alloc as u64) as u32)
+                    } else { (0, 0) };
+                    env.demand.insert(q.id, (sn, mna, mnw));
+                }
+                Op::Tick { now }
+            }
+            _ => Op::Refresh,
+        };
+        if let Op::RmQ { q, .. } = &op {
+            if qids.contains(q) && !removed_queues.contains(q) {
+                removed_queues.push(*q);
+            }
+        }
+        c.apply(tr, &op);
+    }
+    tr.end();
+}
+
+// ------------------------------------------------------------------------------------------------
+// Replay
+// ------------------------------------------------------------------------------------------------
+
+fn parse_op(toks: &[&str], env: &mut Env) -> Option<Op> {
+    let num = |k: &str| arg(toks, k).and_then(|v| v.parse::<u64>().ok());
+    let optnum = |k: &str| arg(toks, k).and_then(|v| if v == "-" { None } else { v.parse::<u32>().ok() });
+    Some(match toks[0] {
+        "addq" => {
+            let limiter = (util::parse_list(arg(toks, "delays")?), num("msf")?, num("maf")?);
+            let c = hk::constants();
+            // the production limiter is kept when the recorded constants are the production ones
+            let production = limiter == (c.submission_delays_ms, c.max_submission_fails, c.max_allocation_fails);
+            Op::AddQ {
+                bl: num("bl")? as u32,
+                wpa: num("wpa")? as u32,
+                mwc: optnum("mwc"),
+                limiter: if production { None } else { Some(limiter) },
+                qid: optnum("qid"),
+                pbs: false,
+            }
+        }
+        "wconn" => Op::WConn { w: num("w")? as u32, a: num("a")? },
+        "wlost" => Op::WLost { w: num("w")? as u32, a: num("a")?, reason: parse_reason(arg(toks, "r")?), life: num("life")? },
+        "job" => Op::Job,
+        "rmq" => Op::RmQ { q: num("q")? as u32, force: num("force")? == 1 },
+        "pause" => Op::Pause { q: num("q")? as u32 },
+        "resume" => Op::Resume { q: num("q")? as u32 },
+        "tick" => {
+            env.script_query = parse_query(arg(toks, "resp")?);
+            env.script_results = match arg(toks, "res")? {
+                "-" => VecDeque::new(),
+                s => s.split(',').map(|r| match r.split_once('/') {
+                    Some(("ok", id)) => VerifSubmit::Ok(id.to_string()),
+                    _ if r == "fail" => VerifSubmit::Fail,
+                    _ => VerifSubmit::Err,
+                }).collect(),
+            };
+            env.demand.clear();
+            if let Some(d) = arg(toks, "dem") {
+                if d != "-" {
+                    for it in d.split(',') {
+                        let (q, rest) = it.split_once(':')?;
+                        let v: Vec<u32> = rest.split('/').map(|x| x.parse().unwrap()).collect();
+                        env.demand.insert(q.parse().ok()?, (v[0], v[1], v[2]));
+                    }
+                }
+            }
+            env.query_perturbed = false;
+            let pert = arg(toks, "pert").map(|v| v == "1").unwrap_or(true);
+            if pert {
+                // no liveness conclusions from a perturbed / undocumented answer
+                env.demand.clear();
+            }
+            Op::Tick { now: num("now")? }
+        }
+        "refresh" => {
+            env.script_reports.clear();
+            let rep = arg(toks, "rep")?;
+            if rep != "-" {
+                for item in rep.split(';') {
+                    let (q, body) = item.split_once('@')?;
+                    let q: u32 = q.parse().ok()?;
+                    if body.starts_with('!') {
+                        env.script_reports.insert(q, ReportSpec::CallErr);
+                    } else {
+                        let mut m = BTreeMap::new();
+                        for it in body.split(',') {
+                            let (a, s) = it.split_once(':')?;
+                            m.insert(a.parse().ok()?, parse_status(s));
+                        }
+                        env.script_reports.insert(q, ReportSpec::Statuses(m));
+                    }
+                }
+            }
+            Op::Refresh
+        }
+        _ => return None,
+    })
+}
+
+fn replay(tr: &mut Sink) {
+    let stdin = std::io::stdin();
+    let mut case: Option<Case> = None;
+    for line in stdin.lock().lines() {
+        let line = line.unwrap();
+        let toks: Vec<&str> = line.split_whitespace().collect();
+        if toks.is_empty() {
+            continue;
+        }
+        match toks[0] {
+            "case" => {
+                if case.take().is_some() {
+                    tr.end();
+                }
+                let nextq = arg(&toks, "nextq").and_then(|v| v.parse().ok()).unwrap_or(1);
+                // constants of the running implementation (not those recorded in the file)
+                let consts = hk::constants();
+                let rest: Vec<&str> = toks[3.min(toks.len())..].iter().copied()
+                    .filter(|t| !t.starts_with("qerr=") && !t.starts_with("rerr=") && !t.starts_with("rmask=")).collect();
+                tr.case(toks.get(1).and_then(|v| v.parse().ok()).unwrap_or(0), toks.get(2).and_then(|v| v.parse().ok()).unwrap_or(0),
+                        &format!("qerr={} rerr={} rmask={} {}", consts.max_queued_status_error_count, consts.max_running_status_error_count,
+                                 probe_resume_mask(), rest.join(" ")));
+                let profile = Profile { name: "replay", ..Default::default() };
+                case = Some(Case::new(0, true, profile, nextq));
+            }
+            "op" => {
+                if let Some(c) = case.as_mut() {
+                    if c.dead {
+                        continue;
+                    }
+                    let parsed = {
+                        let mut env = c.env.borrow_mut();
+                        parse_op(&toks[1..], &mut env)
+                    };
+                    match parsed {
+                        Some(op) => c.apply(tr, &op),
+                        None => {
+                            tr.op(&toks[1..].join(" "));
+                            tr.out("!bad-op unparsable");
+                            c.dead = true;
+                        }
+                    }
+                }
+            }
+            "end" => {
+                if case.take().is_some() {
+                    tr.end();
+                }
+            }
+            _ => {}
+        }
+    }
+    if case.take().is_some() {
+        tr.end();
+    }
+}
+
+pub fn main(mode: &str, args: &[String]) {
+    let a = GenArgs::parse(args);
+    let mut trace = Trace::new();
+    let mut tr = Sink { tr: Some(&mut trace) };
+    match mode {
+        "gen" => {
+            let rmask = probe_resume_mask();
+            let profile = a.value("--profile").map(|s| s.to_string());
+            for k in 0..a.cases {
+                let subseed = a.case_seed(k);
+                gen_case(&mut tr, a.shard * 1_000_000 + k, subseed, a.thorough, rmask, profile.as_deref());
+            }
+        }
+        "case" => {
+            // hqv autoalloc case <subseed> [--tier thorough] [--profile p]   (regenerate one case from its header)
+            let subseed: u64 = args[0].parse().unwrap();
+            let rmask = probe_resume_mask();
+            gen_case(&mut tr, 0, subseed, a.thorough, rmask, a.value("--profile"));
+        }
+        "replay" => replay(&mut tr),
+        "probe" => {
+            println!("resume_mask={} constants={:?}", probe_resume_mask(), hk::constants());
+        }
+        _ => {
+            eprintln!("component autoalloc: unknown mode {mode}");
+            std::process::exit(2);
+        }
+    }
+    trace.flush();
 }
